@@ -1,5 +1,9 @@
 -- root of the `Refine` library: models, generated tables, lemmas and property theorems
+-- one import per line (union-merged)
+import Refine.Scalar
 import Refine.Gen.CellTables
 import Refine.Gen.PartMacros
 import Refine.Model.CellTopo
+import Refine.Model.Geom
+import Refine.Lemmas.ScalarReal
 import Refine.Props.C15
